@@ -350,13 +350,13 @@ func caseVolLimits(c *kit.Ctx, r *kit.Rand) {
 func caseVolAlts(c *kit.Ctx, r *kit.Rand) {
 	ctx := kit.Context()
 	w := &sk.World{}
-	sk.GenVolumes(r, w, r.Range(2, 5))
+	sk.GenVolumesOpts(r, w, r.Range(2, 5), true)
 	cl := kit.NewClient(interceptor.Funcs{})
-	applyVolumes(ctx, cl, w)
 	p := &corev1.Pod{ObjectMeta: metav1.ObjectMeta{Name: "p", Namespace: "default", UID: "uid-p"}, Spec: corev1.PodSpec{Containers: []corev1.Container{{Name: "c"}}}}
 	for i := 0; i < r.Range(1, 3); i++ {
 		sk.AttachVolumes(r, w, p)
 	}
+	applyVolumes(ctx, cl, w) // after attaching: generic ephemeral volumes add their own claims
 	alts, err := psched.NewVolumeTopology(cl).GetRequirements(ctx, p)
 	if err != nil {
 		panic(err)
@@ -368,8 +368,20 @@ func caseVolAlts(c *kit.Ctx, r *kit.Rand) {
 	}
 	var vols []volJ
 	for _, v := range p.Spec.Volumes {
-		vs := w.Vols[v.PersistentVolumeClaim.ClaimName]
 		vj := volJ{Terms: []sk.Term{}}
+		claim := ""
+		switch {
+		case v.PersistentVolumeClaim != nil:
+			claim = v.PersistentVolumeClaim.ClaimName
+		case v.Ephemeral != nil:
+			claim = p.Name + "-" + v.Name
+			c.Count("A.vol.ephemeral")
+		default:
+			c.Count("A.vol.emptydir")
+			vols = append(vols, vj)
+			continue
+		}
+		vs := w.Vols[claim]
 		if vs.PV != nil {
 			vj.Local = vs.PV.Spec.Local != nil || vs.PV.Spec.HostPath != nil
 			if vs.PV.Spec.NodeAffinity != nil && vs.PV.Spec.NodeAffinity.Required != nil {
@@ -426,8 +438,7 @@ func caseNC(c *kit.Ctx, r *kit.Rand) {
 	cl := kit.NewClient(interceptor.Funcs{})
 	withVols := r.Chance(1, 2)
 	if withVols {
-		sk.GenVolumes(r, w, r.Range(2, 4))
-		applyVolumes(ctx, cl, w)
+		sk.GenVolumesOpts(r, w, r.Range(2, 4), true)
 	}
 	clk := clock.NewFakeClock(time.Unix(1_700_000_000, 0))
 	cluster := state.NewCluster(clk, cl, fake.NewCloudProvider())
@@ -475,6 +486,7 @@ func caseNC(c *kit.Ctx, r *kit.Rand) {
 		}
 		if withVols && r.Chance(1, 2) {
 			sk.AttachVolumes(r, w, p)
+			applyVolumes(ctx, cl, w)
 		}
 		d := dumpPodK(p)
 		q := p.DeepCopy()
